@@ -196,7 +196,7 @@ def run_index(check, seed, idx):
     engine.prepare_process()
     s = engine.seed_for(check, seed, idx)
     rng = random.Random(s)
-    return _result(gen_case(rng), s)
+    return _result(json.loads(json.dumps(gen_case(rng))), s)
 
 
 def replay(check, trace):
@@ -204,3 +204,90 @@ def replay(check, trace):
     r = _result(trace, None)
     r["log"] = [json.dumps(x, sort_keys=True) for x in trace]
     return r
+
+
+# ----------------------------------------------------------------------------
+# history part: joins inside histories that write to key columns under identity reuse
+# ----------------------------------------------------------------------------
+from simkit.engine import Oracle, Violation
+
+
+def resolve_cols(table, specs):
+    """the python value lists a list of column specs refers to (name -> first stored match)"""
+    out = []
+    cols = table.cols()
+    names = list(table.column_names())
+    for s in specs:
+        if s["k"] == "str":
+            if s["v"] not in names:
+                return None
+            out.append(list(cols[names.index(s["v"])]))
+        elif s["k"] == "col":
+            if s["j"] >= len(cols):
+                return None
+            out.append(list(cols[s["j"]]))
+        elif s["k"] == "vec":
+            out.append(V.dec_list(s["v"]))
+        else:
+            return None
+    return out
+
+
+class C09H(Oracle):
+    prop = "C09"
+
+    def after(self, env, rec, out, ctx, pre):
+        if rec["op"] != "join" or rec.get("kind") != "inner_join" or out["st"] == "skip":
+            return []
+        w = env.world
+        le, re_ = w.handles.get(rec["h"]), w.handles.get(rec["other"])
+        if le is None or re_ is None:
+            return []
+        viols = []
+        for e in (le, re_):
+            if e.eid in env.prev and env.prev[e.eid] != env.cur.get(e.eid):
+                viols.append(Violation("C09", "C09/input-modified", "inner_join changed its operand %s" % w.name_of(e), {"how": "input", "history": True}))
+        if out["st"] != "ok" or out["res"] is None:
+            return viols
+        res = w.entries.get(out["res"])
+        if res is None or not res.is_table:
+            return viols
+        try:
+            L, R = le.obj, re_.obj
+            lk, rk = resolve_cols(L, rec["lon"]), resolve_cols(R, rec["ron"])
+            if lk is None or rk is None:
+                return viols
+            lrows = list(zip(*[list(c) for c in L.cols()])) if L.cols() else []
+            rrows = list(zip(*[list(c) for c in R.cols()])) if R.cols() else []
+            if any(len(k) != len(lrows) for k in lk) or any(len(k) != len(rrows) for k in rk):
+                return viols
+            want = []
+            for i, a in enumerate(lrows):
+                ka = tuple(k[i] for k in lk)
+                for j, b in enumerate(rrows):
+                    if ka == tuple(k[j] for k in rk):
+                        want.append(tuple(V.tv(x) for x in a) + tuple(V.tv(x) for x in b))
+            cols = res.obj.cols()
+            got = [tuple(V.tv(x) for x in row) for row in zip(*[list(c) for c in cols])] if cols else []
+        except Exception as ex:
+            ex = None
+            return viols
+        env.probe("c09h_joins_checked")
+        if any(e.eid in env.prev and "set" in "".join(sorted(e.tags)) for e in (le, re_)):
+            pass
+        sig = {"history": True, "nkeys": len(rec["lon"])}
+        if not want and not cols:
+            return viols
+        if sorted(got) != sorted(want):
+            sig["how"] = "multiset"
+            viols.append(Violation("C09", "C09/wrong-rows", "inner_join inside a history: result rows %s, the definition over the operands' current contents gives %s" % (got, want), sig))
+        elif got != want:
+            sig["how"] = "order"
+            viols.append(Violation("C09", "C09/wrong-rows", "inner_join inside a history: rows in order %s, left-major order is %s" % (got, want), sig))
+        else:
+            names = [V.tv(n) for n in res.obj.column_names()]
+            wn = [V.tv(n) for n in list(L.column_names()) + list(R.column_names())]
+            if names != wn:
+                sig["how"] = "names"
+                viols.append(Violation("C09", "C09/wrong-names", "result names %s, sources %s" % (names, wn), sig))
+        return viols
